@@ -270,6 +270,7 @@ func runC03(r *mon.Run) {
 	r.FloorFam("collude-split0", 10)
 	r.FloorFam("collude-crt", 10)
 	r.FloorFam("collude-mirrored", 10)
+	r.FloorFam("collude-own-challenge", 10)
 	r.FloorFam("equalised-reused-objects", 50)
 }
 
@@ -315,6 +316,37 @@ func c03Collude(r *mon.Run, jr *rand.Rand, shape string, keys []*world.Key, cred
 				r.PanicSeen(mon.PanicSite(stack))
 			}
 			c03Oracle(r, "collude-mirrored", d, ok, []*big.Int{secrets[a], negS}, lab, list, pks)
+		}
+	}
+	// own challenge: the second member answers another challenge than the list's (c' = k*c) and so reaches member a's response
+	// with a smaller secret s_a/k and the same randomiser. Every member has to be verified against the list's challenge.
+	for _, k := range []int64{0, 2, 3} {
+		var sB, kk *big.Int
+		switch {
+		case k == 0: // secret 1, c' = c*s_a
+			sB, kk = bi(1), cp(secrets[a])
+		case new(big.Int).Mod(secrets[a], bi(k)).Sign() == 0:
+			sB, kk = new(big.Int).Quo(secrets[a], bi(k)), bi(k)
+		default:
+			continue
+		}
+		if sB.Cmp(secrets[a]) == 0 {
+			continue
+		}
+		pa := mkHonest(a)
+		pu := refimpl.NewUProver(keys[b].PK, map[int]*big.Int{0: sB}, rs)
+		contrib := append(pa.Commit(), pu.Commit()...)
+		c := refimpl.Challenge(ctx, nonce, contrib, false)
+		list := gabi.ProofList{pa.RespondProof(c), pu.Respond(mul(c, kk))}
+		for _, lab := range [][]int{nil, {0, 0}} {
+			d := fmt.Sprintf("%s a=%d second member is a commitment to s_a/k answering k*c (k=%d, 0: secret 1) labels=%v", shape, a, k, lab)
+			r.Distinct("collude-own-challenge", d)
+			ok, pv, stack := verifyList(cloneList(list), pks, ctx, nonce, false, labelsOf(lab))
+			r.Eval("collude-own-challenge", outcome(ok, pv))
+			if pv != nil {
+				r.PanicSeen(mon.PanicSite(stack))
+			}
+			c03Oracle(r, "collude-own-challenge", d, ok, []*big.Int{secrets[a], sB}, lab, list, pks)
 		}
 	}
 	if creds[b] != nil {
